@@ -563,7 +563,8 @@ class Diagnosis:
         if obs["exc"] and obs["exc"] != "NonTerminal":
             return None, ""
         k = obs["sent"]
-        if family != "ascii" and isinstance(whole, bytes):
+        latin1 = kind == "regex_latin1"        # one byte per symbol: none of the multi-byte mechanisms applies
+        if family != "ascii" and isinstance(whole, bytes) and not latin1:
             failed = not obs["terminal"]
             if family == "mbf" and self.sibling in s and (k, obs["terminal"]) == self.foreign_model(s):
                 return K6, ""
@@ -578,7 +579,7 @@ class Diagnosis:
                 return K3, ""
         # upstream: the machine does exactly what greenery's automaton prescribes, and that automaton is wrong
         gn, gacc = self.greenery_prediction(s)
-        gk = len(s[:gn].encode("utf-8")) if isinstance(whole, bytes) else gn
+        gk = len(s[:gn].encode("utf-8")) if isinstance(whole, bytes) and not latin1 else gn
         if (gk, gacc) == (k, obs["terminal"]) and (gn, gacc) != self.ref.expect_symbols(s):
             return U1, " [the machine follows greenery's own automaton: greenery parses /%s/ as /%s/]" % (
                 self.expr, self.fsm()[2])
